@@ -7,6 +7,7 @@ import json, os, re, subprocess, sys
 import vlib
 
 CAL = os.path.join(vlib.VERIF, "cost_calibration.json")
+NPAT = 31
 
 
 def measure(ctx, kmax):
@@ -17,7 +18,7 @@ def measure(ctx, kmax):
             raise vlib.Infra("cost meter failed on pattern %d: %s" % (i, p.stderr[-500:]))
         return [json.loads(l) for l in p.stdout.splitlines()]
     rows = []
-    for r in vlib.pmap(one, range(26)):
+    for r in vlib.pmap(one, range(NPAT)):
         rows += r
     return rows
 
@@ -56,7 +57,7 @@ def run(ctx):
     evals = sum(len(x["ks"]) for x in rows)
     vlib.finish(ctx, "exploration", {
         "evaluations": evals, "distinct_nontrivial": total, "kmax": kmax,
-        "rule": "26 pump patterns x {whole, 1-byte} delivery x doubling ladder k = 64..%d; one evaluation = one measured stream; distinct = (pattern, delivery) ladders judged by TLC" % kmax,
+        "rule": "%d pump patterns x {whole, 1-byte} delivery x doubling ladder k = 64..%d; one evaluation = one measured stream; distinct = (pattern, delivery) ladders judged by TLC" % (NPAT, kmax),
         "samples": [{k: rows[2][k] for k in ("pat", "mode", "ks", "ws", "lens", "bufsums", "base")}],
         "trusted_base": ["clang -fsanitize-coverage=trace-pc-guard counts basic blocks of libhtp translation units", "harness/vf_alloc.c counts bytes moved"],
     }, assumptions=["time inside zlib / LZMA is not metered", "the per-pattern base values in cost_calibration.json were measured on the reference tree (committed, never written by a check run)",
